@@ -43,6 +43,9 @@ struct Expect {
     parent_read_eof: bool,
     parent_read_other: bool,
 }
+static mut WITH_PRE_EXEC: bool = false;
+static mut NO_STDIN_PIPE: bool = false;
+static mut PRE_EXEC_ERRNO: i32 = 0;
 static mut EXP: Expect = Expect {
     nargs: 0, argv: [0; 3], nenv: 0, envp: [0; 2], cwd: 0, uid: None, gid: None, pgroup: None, stdin_pipe: false,
     stdout_raw: None, sync_r: 99, sync_w: 99, last_pipe_r: 99, last_pipe_w: 99, exec_reached: false, exec_errno: 0,
@@ -176,6 +179,10 @@ fn hook(k: &mut K, n: usize, a: &[usize; 6]) -> Option<usize> {
                     i += 1;
                 }
                 let write_failed = k.count_failed(nr::WRITE) > 0;
+                let pre = unsafe { PRE_EXEC_ERRNO };
+                if pre != 0 && step_errno == 0 && !write_failed {
+                    assert!(e.msg_sent && e.msg_errno == pre, "a failing pre-exec step is reported to the parent with its errno");
+                }
                 if step_errno != 0 && !write_failed {
                     assert!(e.msg_sent, "a child that failed before/at exec reports to the parent before exiting");
                     assert!(e.msg_errno == step_errno as i32, "the report carries the failing step's errno as a positive code");
@@ -289,22 +296,43 @@ fn run_spawn(faults: u8, side: u8, level: u8) -> (tiny_std::Result<tiny_std::pro
         cmd.pgroup(pg);
         e.pgroup = Some(pg);
     }
-    if !minimal && kani::any() {
+    if !minimal && !unsafe { NO_STDIN_PIPE } && kani::any() {
         cmd.stdin(Stdio::MakePipe);
         e.stdin_pipe = true;
     }
     if let Some(fd) = e.stdout_raw {
         cmd.stdout(Stdio::RawFd(Fd::try_new(fd).unwrap()));
     }
+    if unsafe { WITH_PRE_EXEC } {
+        // a pre-exec step supplied by the caller: succeeds or fails with an arbitrary errno (in the child)
+        let fail: bool = kani::any();
+        let code: i32 = kani::any();
+        kani::assume(code >= 1 && code <= 4095);
+        if fail {
+            e.exec_errno = 0;
+            unsafe { PRE_EXEC_ERRNO = code };
+        }
+        unsafe {
+            cmd.pre_exec(move || {
+                if fail {
+                    Err(tiny_std::Error::Os { msg: "pre-exec step failed", code: rusl::error::Errno::new(code) })
+                } else {
+                    Ok(())
+                }
+            });
+        }
+    }
     let r = cmd.spawn();
     core::mem::forget(cmd);
     (r, owned_before)
 }
 
-// @ob C13 quick spawn_child_side fns=Command::new,Command::arg,Command::env,Command::cwd,Command::uid,Command::gid,Command::pgroup,Command::stdin,Command::stdout,Command::spawn,do_spawn,setup_io,Stdio::to_child_stdio,rusl::process::fork,rusl::process::execve,rusl::unistd::dup3 bound="the path that continues as the forked child: 0..=1 args, 0..=1 env entries, cwd/uid configured or not, stdin inherit|pipe (thorough variant: 0..=2 args/env, gid, pgroup, stdout descriptor); one failing call at any index; execve fails (any errno) or succeeds" timeout=2400 mem=40
+// @ob C13 quick spawn_child_side fns=Command::new,Command::arg,Command::env,Command::cwd,Command::uid,Command::gid,Command::pgroup,Command::stdin,Command::stdout,Command::spawn,do_spawn,setup_io,Stdio::to_child_stdio,rusl::process::fork,rusl::process::execve,rusl::unistd::dup3 bound="the path that continues as the forked child: 0..=1 args, 0..=1 env entries, cwd/uid configured or not, stdin inherited (thorough variant: stdin pipe, 0..=2 args/env, gid, pgroup, stdout descriptor); one failing call at any index; execve fails (any errno) or succeeds" timeout=2400 mem=24
 #[kani::proof]
 #[kani::unwind(24)]
 fn spawn_child_side() {
+    // (the stdin pipe option is exercised on the child side by spawn_child_side_full and on the parent side in quick)
+    unsafe { NO_STDIN_PIPE = true };
     let (_r, _) = run_spawn(1, 1, 1);
     let k = ks();
     let e = exp();
@@ -326,7 +354,7 @@ fn spawn_child_side_full() {
     let _ = e;
 }
 
-// @ob C13 quick spawn_parent_side fns=Command::spawn,do_spawn,Process::wait bound="the path that continues as the parent: same configurations; one failing call at any index; pipe read: EOF | 8-byte report (any errno) | short | error" timeout=2400 mem=40
+// @ob C13 quick spawn_parent_side fns=Command::spawn,do_spawn,Process::wait bound="the path that continues as the parent: same configurations; one failing call at any index; pipe read: EOF | 8-byte report (any errno) | short | error" timeout=2400 mem=24
 #[kani::proof]
 #[kani::unwind(24)]
 fn spawn_parent_side() {
@@ -381,7 +409,7 @@ fn spawn_parent_side_full() {
     }
 }
 
-// @ob C12 quick spawn_parent_descriptors fns=Command::spawn,do_spawn,setup_io bound="as spawn_parent_side: descriptor table after spawn() returns in the parent" timeout=2400 mem=40
+// @ob C12 quick spawn_parent_descriptors fns=Command::spawn,do_spawn,setup_io bound="as spawn_parent_side: descriptor table after spawn() returns in the parent" timeout=2400 mem=24
 #[kani::proof]
 #[kani::unwind(24)]
 fn spawn_parent_descriptors() {
@@ -479,4 +507,14 @@ fn child_wait() {
     kani::cover!(k.n_failed == 1, "a wait4 call failed");
     assert!(k.reaped <= 1);
     core::mem::forget(c);
+}
+
+// @ob C13 quick spawn_child_pre_exec fns=Command::pre_exec,Command::spawn,do_spawn bound="the path that continues as the forked child, no arguments, one caller-supplied pre-exec step that succeeds or fails with any errno; no injected system-call failure; the final assertions sit in the kernel stand-in at the child's exit (nothing after spawn() is reachable in the child when the code is right)" timeout=1800 mem=12 nocover=1
+#[kani::proof]
+#[kani::unwind(24)]
+fn spawn_child_pre_exec() {
+    unsafe { WITH_PRE_EXEC = true };
+    let (_r, _) = run_spawn(0, 1, 0);
+    let k = ks();
+    assert!(!k.forked, "spawn() returned in the forked child: the child keeps running the caller's code");
 }
